@@ -3,6 +3,7 @@ import Eru.Misc.Docker
 import Eru.Misc.Keys
 import Eru.Misc.Chunks
 import Eru.Misc.Sender
+import Eru.Misc.Helium
 /- Oracle for the "misc" group (C24, C27, C29, C31): runs the model on each case, compares
    with the implementation's output and evaluates the specification on that output. -/
 namespace Oracle.Misc
@@ -267,5 +268,75 @@ def handle (j : Json) : Json :=
   | "send" => handleSend j
   | _ => verdict (jget j "id") false Json.null [] "unknown-op"
 end SendO
+
+/-! ### C27 -/
+namespace HeliumO
+open Eru.Misc.Helium
+
+structure Sim where
+  reg : List String          -- registered addresses (sorted)
+  st : St
+  pending : List Nat         -- Unsubscribe calls that have not returned yet
+  asked : List Nat           -- every sid for which Unsubscribe was called
+  prev : List (Nat × List String)  -- last observation of the readers
+
+def insertSorted (l : List String) (a : String) : List String := sortStrs (if l.contains a then l else a :: l)
+
+def lastOf (st : St) (sid : Nat) : Option (List String) :=
+  match st.subs.find? (·.id == sid) with
+  | some s => s.inbox.getLast?
+  | none => none
+
+def stepSim (acc : Sim × Bool × List String × List Json) (so : Json × Json) : Sim × Bool × List String × List Json :=
+  let (sim, agree, viols, models) := acc
+  let (stp, ob) := so
+  -- 1. global registration change
+  let reg := if jhas stp "reg" then insertSorted sim.reg (jstr (jget stp "reg"))
+             else if jhas stp "dereg" then sim.reg.filter (· != jstr (jget stp "dereg")) else sim.reg
+  -- 2. the instance's own operation
+  let sid := jnat (jget stp "sid")
+  let op := jstr (jget stp "op")
+  let st0 := sim.st
+  let st1 : St := match op with
+    | "sub" => subscribe st0 { id := sid, reading := jstr (jget stp "mode") == "reader", cancelled := false, inbox := [] } st0.subs.length
+    | "cancel" => { st0 with subs := st0.subs.map fun s => if s.id == sid then { s with cancelled := true, reading := false } else s }
+    | _ => st0
+  let pending := if op == "unsub" then sim.pending ++ [sid] else sim.pending
+  let asked := if op == "unsub" then sim.asked ++ [sid] else sim.asked
+  -- 3. the loop during the waiting window (longer than one push interval)
+  let stuckNow := st1.subs.any (·.stuck)
+  let st2 : St := if st1.blocked && !stuckNow then { st1 with blocked := false } else st1
+  let evs : List Ev := pending.map Ev.unsub ++ (if st2.latest == reg then [] else [Ev.update reg]) ++ [Ev.tick]
+  let st3 := run st2 evs
+  let pending' := pending.filter fun i => !st3.closedIds.contains i
+  -- 4. compare with the observation
+  let liveReaders := st3.subs.filter fun s => s.live && !asked.contains s.id
+  let obsLast (i : Nat) : Option (List String) :=
+    let r := jget ob "readers"
+    if jhas r (toString i) then some (jstrs (jget r (toString i))) else none
+  let sfx := if stuckNow then ":slow-reader" else ""
+  let v1 := liveReaders.filterMap fun s => if obsLast s.id == some reg then none else some ("C27:not-converged" ++ sfx)
+  let unsubDone (i : Nat) : Bool := let u := jget (jget ob "unsubs") (toString i); jbool (jget u "done") && jbool (jget u "closed")
+  let v2 := asked.filterMap fun i => if unsubDone i then none else some ("C27:unsubscribe-blocked" ++ sfx)
+  let agreeReaders := liveReaders.all fun s =>
+    if st3.blocked then obsLast s.id == some reg || obsLast s.id == (sim.prev.lookup s.id) || obsLast s.id == lastOf st3 s.id
+    else obsLast s.id == lastOf st3 s.id && lastOf st3 s.id == some reg
+  let agreeUnsubs := asked.all fun i => unsubDone i == st3.closedIds.contains i
+  let prev := liveReaders.filterMap fun s => (obsLast s.id).map fun l => (s.id, l)
+  let mj := Json.mkObj [("blocked", st3.blocked), ("registered", Json.arr (reg.map Json.str).toArray),
+    ("closed", Json.arr (st3.closedIds.map (fun i => ji (Int.ofNat i))).toArray)]
+  ({ reg := reg, st := st3, pending := pending', asked := asked, prev := prev }, agree && agreeReaders && agreeUnsubs, viols ++ v1 ++ v2, models ++ [mj])
+
+def handle (j : Json) : Json :=
+  let id := jget j "id"
+  let steps := jarr (jget j "steps")
+  let obs := jarr (jget (jget j "impl") "obs")
+  let init : Sim := { reg := [], st := { latest := [], subs := [], closedIds := [], blocked := false }, pending := [], asked := [], prev := [] }
+  let (_, agree, viols, models) := (steps.zip obs).foldl stepSim (init, true, [], [])
+  let hasSlow := steps.any fun s => jstr (jget s "mode") == "slow"
+  let hasUnsub := steps.any fun s => jstr (jget s "op") == "unsub"
+  verdict id (agree && steps.length == obs.length) (Json.arr models.toArray) viols.eraseDups
+    ("helium:" ++ (if hasSlow then "slow" else "ready") ++ (if hasUnsub then "+unsub" else ""))
+end HeliumO
 
 end Oracle.Misc
